@@ -265,11 +265,18 @@ func c15Domain() []TV {
 	for _, v := range f64 {
 		out = append(out, TV{"float64", v})
 	}
+	// non-dyadic values: a float32 and its float64 widening are different numbers with different texts
+	for _, v := range []string{"0.1", "0.10000000149011612", "-0", "1.1", "1.100000023841858", "33.3", "0.3"} {
+		out = append(out, TV{"float64", v})
+	}
+	for _, v := range []string{"0.1", "1.1", "33.3", "-0.3", "-0"} {
+		out = append(out, TV{"float32", v})
+	}
 	f32 := []string{"-16777216", "-129", "-128", "-1.5", "-1", "-0.5", "0", "0.25", "0.5", "1", "1.5", "2", "2.5", "10", "127", "127.5", "128", "255", "255.5", "256", "65535", "65536", "16777216"}
 	for _, v := range f32 {
 		out = append(out, TV{"float32", v})
 	}
-	for _, s := range []string{"", "0", "1", "1.5", "10", "2", "-1", "-1.5", "a", "A", "ab", "b", "1a", "255", "256", "0.5", "-", "é", "127"} {
+	for _, s := range []string{"", "0", "1", "1.5", "10", "2", "-1", "-1.5", "a", "A", "ab", "b", "1a", "255", "256", "0.5", "-", "é", "127", "0.1", "0.10000000149011612", "-0", "1.1", "33.3"} {
 		out = append(out, TV{"string", s})
 	}
 	return out
@@ -442,7 +449,7 @@ func init() {
 			"strings.Compare for string/string and decimal-text/string; result in {-1,0,1}; reflexive; antisymmetric; transitive within kind. " +
 			"Non-trivial: operands of different Go types.",
 		Assumptions: []string{
-			"|v| <= 2^53 (the exactly-representable range of the statement); floats are dyadic fractions so that their decimal text is exact and exponent-free",
+			"|v| <= 2^53 (the exactly-representable range of the statement); floats are dyadic fractions, plus a few non-dyadic float32/float64 values (0.1, 1.1, 33.3, the float64 widening of float32(0.1), -0) whose decimal text is the shortest text that reads back as the same value of that type",
 			"float-vs-string pairs with |float| >= 10^6 are judged by the algebraic laws only (plain vs. exponent decimal text is not fixed by the statement)",
 			"float32 values are compared by the exact value of the float32",
 		},
